@@ -42,6 +42,9 @@ def write_case(d, c):
         f.write(c["xml"])
     with open(os.path.join(d, "style.xsl"), "w", encoding="utf-8") as f:
         f.write(c["xsl"])
+    if c.get("other_xsl"):
+        with open(os.path.join(d, "other.xsl"), "w", encoding="utf-8") as f:
+            f.write(c["other_xsl"])
     pp = os.path.join(d, "params.txt")
     if c.get("params"):
         with open(pp, "w") as f:
@@ -348,6 +351,20 @@ CORPUS = [
 ]
 
 
+def pi_corpus(g):
+    """one small case per lexical variant of the xml-stylesheet PI (runs first, at every seed)"""
+    from vlib.common import Rng
+    out = []
+    for v in g.PI_VARIANTS:
+        if v == "base":
+            continue
+        out.append({"xml": '<?xml version="1.0"?>\n@PI@<doc><a>1</a><b>2</b></doc>', "pivar": v,
+                    "xsl": '<?xml version="1.0"?>\n<xsl:stylesheet version="1.0" xmlns:xsl="http://www.w3.org/1999/XSL/Transform">'
+                           '<xsl:template match="/"><o n="{count(//*)}"><xsl:value-of select="//b"/></o></xsl:template></xsl:stylesheet>\n',
+                    "mode": "xml", "cls": "corpus-pi", "probes": [], "nodom": False, "pi": v, "other_xsl": g.OTHER_XSL})
+    return out
+
+
 def run_forms(ctx, g, r):
     ctx.build("hooks")
     harness = common.build_harness("c05_forms", ["c05_forms.cpp"], flavor="hooks")
@@ -359,6 +376,12 @@ def run_forms(ctx, g, r):
         d = os.path.join(wd, "k%d" % k)
         c = dict(c)
         c["xml"] = c["xml"].replace("@DIR@", d)
+        cases.append((d, c))
+    from vlib.common import Rng
+    for k, c in enumerate(pi_corpus(g)):
+        d = os.path.join(wd, "p%d" % k)
+        c = dict(c)
+        c["xml"] = c["xml"].replace("@PI@", g.stylesheet_pi(c["pivar"], Rng(k + 1), d))
         cases.append((d, c))
     for i in range(ncases):
         d = os.path.join(wd, "g%d" % i)
@@ -415,10 +438,12 @@ def run_forms(ctx, g, r):
             agree_cases += 1
         shrunk = {}
         for kind, desc, forms in probs:
-            key = "forms.%s[%s]: cls=%s mode=%s out=%s nonbmp=%d probes=%s" % (kind, ",".join(forms)[:400], c["cls"], c["mode"], c.get("out", "-"),
-                                                                            1 if "\U0001f600" in c["xml"] else 0, "+".join(c.get("probes", [])))
+            key = "forms.%s[%s]: cls=%s mode=%s out=%s nonbmp=%d pi=%s probes=%s" % (kind, ",".join(forms)[:400], c["cls"], c["mode"], c.get("out", "-"),
+                                                                                  1 if "\U0001f600" in c["xml"] else 0, c.get("pi", "base"),
+                                                                                  "+".join(c.get("probes", [])))
             if ctx.fail(key, desc + " -- forms: " + ", ".join(forms)[:600], {"xml": c["xml"], "xsl": c["xsl"], "mode": c["mode"], "nodom": c.get("nodom", False), "dir": d, "out": c.get("out", "-"),
-                                                                  "params": c.get("params"), "notree": c.get("notree", False)}) == "new" and len(shrunk) < 1 and len(ctx.failures) <= 3:
+                                                                  "params": c.get("params"), "notree": c.get("notree", False),
+                                                                  "pi": c.get("pi"), "other_xsl": c.get("other_xsl")}) == "new" and len(shrunk) < 1 and len(ctx.failures) <= 3:
                 # an unlisted failure: shrink the source document first (same kind of disagreement must persist)
                 small = shrink_case(harness, xalan, d, c, kind)
                 shrunk[kind] = small
